@@ -29,7 +29,15 @@ ASSUMPTIONS = ["a column name that coincides with a term's printed form (e.g. 'x
 
 ATOMS = {"A": ["A"], "B": ["B"], "G": ["G"], "x": ["x"], "y": ["y"], "z": ["z"], "poly(x, 2)": ["x"], "log(z ** 2)": ["z"], "bs(y, df=3)": ["y"],
          "C(B, contr.sum)": ["B"], "center(x)": ["x"], "I(x * y)": ["x", "y"], "C(G)": ["G"], "scale(z)": ["z"], "poly(y, 3)": ["y"],
-         "poly(center(z), 2)": ["z"], "I(center(x) ** 2)": ["x"], "scale(log(z ** 2 + 1))": ["z"]}
+         "poly(center(z), 2)": ["z"], "I(center(x) ** 2)": ["x"], "scale(log(z ** 2 + 1))": ["z"],
+         # a multi-column factor supplied by the caller's context as a mapping of sub-columns
+         "extras": []}
+
+
+def make_ctx(rows, order="uvw"):
+    """Context holding the mapping-valued factor `extras` for the given original row numbers, keys inserted in `order`."""
+    full = {"u": [float(i % 4) for i in rows], "v": [float((i * i) % 7) - 2.5 for i in rows], "w": [0.5 * i for i in rows]}
+    return {"extras": {k: np.array(full[k]) for k in order}}
 
 
 def gen_case(rng: random.Random, tier: str) -> dict:
@@ -58,7 +66,8 @@ def gen_case(rng: random.Random, tier: str) -> dict:
     k = rng.randint(1, len(terms) + (1 if icpt else 0))
     return {"cols": cols, "formula": f, "lhs": lhs, "output": rng.choice(["pandas", "numpy", "sparse"]), "subset_k": k,
             "cluster": rng.choice([None, None, "numerical_factors"]), "ordering": rng.choice(["degree", "degree", "none", "sort"]),
-            "subset_seed": rng.randrange(1 << 30), "shape": sorted(len(t) for t in terms), "levels": levels}
+            "subset_seed": rng.randrange(1 << 30), "shape": sorted(len(t) for t in terms), "levels": levels,
+            "ctx_order": "".join(rng.sample("uvw", 3))}
 
 
 def gen_split(name):
@@ -190,7 +199,7 @@ def judge(case) -> Outcome:
             kw = {"cluster_by": case["cluster"]} if case.get("cluster") else {}
             from formulaic import Formula
 
-            res = Formula(f, _ordering=case.get("ordering", "degree")).get_model_matrix(df, output=case["output"], context={}, **kw)
+            res = Formula(f, _ordering=case.get("ordering", "degree")).get_model_matrix(df, output=case["output"], context=make_ctx(range(len(df))), **kw)
     except Exception as e:  # noqa: BLE001
         out.fail("c10.fit_raised", f"{tag}: {type(e).__name__}: {str(e)[:200]}")
         return out
@@ -200,6 +209,18 @@ def judge(case) -> Outcome:
         M = dense(mm)
         if not check_spec(ms, M, mm, out, tag, case):
             return out
+        # the same spec used again, the caller's mapping-valued factor now listing its sub-columns in another order: every
+        # reported name must still sit on its own column
+        try:
+            with quiet():
+                again = ms.get_model_matrix(df, context=make_ctx(range(len(df)), case.get("ctx_order", "wvu")))
+            if list(again.model_spec.column_names) != list(ms.column_names) or (case["output"] == "pandas" and list(again.columns) != list(ms.column_names)):
+                out.fail("c10.reuse_columns_moved", f"{tag}: reuse reports {list(again.model_spec.column_names)} / labels {list(getattr(again, 'columns', []))}; fitted spec has {list(ms.column_names)}")
+            elif not np.allclose(dense(again), M, equal_nan=True):
+                out.fail("c10.reuse_columns_moved", f"{tag}: reuse with the context mapping in order {case.get('ctx_order')} puts other values under the reported names")
+            out.see("reuses_checked")
+        except Exception as e:  # noqa: BLE001
+            out.fail("c10.reuse_raised", f"{tag}: {type(e).__name__}: {str(e)[:150]}")
         # subset: shuffled sample of the terms, default ordering and ordering='none'
         rng = random.Random(case["subset_seed"])
         terms = list(ms.formula)
@@ -208,7 +229,7 @@ def judge(case) -> Outcome:
             try:
                 with quiet():
                     ss = ms.subset(sub, **kw)
-                    sm = ss.get_model_matrix(df)
+                    sm = ss.get_model_matrix(df, context=make_ctx(range(len(df)), case.get("ctx_order", "uvw")))
                 S = dense(sm)
                 order = list(ss.formula)
                 if kw and order != sub:
@@ -224,8 +245,8 @@ def judge(case) -> Outcome:
                 # ... and on other data the subset spec must still reproduce the parent's columns (same recorded state)
                 other = df.iloc[[1, 3, 4, 6, 8, 9, 11]].reset_index(drop=True)
                 with quiet():
-                    P2 = dense(ms.get_model_matrix(other))
-                    S2 = dense(ss.get_model_matrix(other))
+                    P2 = dense(ms.get_model_matrix(other, context=make_ctx([1, 3, 4, 6, 8, 9, 11])))
+                    S2 = dense(ss.get_model_matrix(other, context=make_ctx([1, 3, 4, 6, 8, 9, 11], case.get("ctx_order", "uvw"))))
                 if S2.shape[1] != len(idx) or not np.allclose(S2, P2[:, idx], equal_nan=True):
                     out.fail("c10.subset_other_data", f"{tag}: subset {[str(t) for t in sub]} {kw} on other data differs from the parent spec's columns on the same data")
             except Exception as e:  # noqa: BLE001
